@@ -79,10 +79,13 @@ def indexBoundary (rindex : Bool) (n : Nat) : Option Int → Int
   | none => if rindex then (n : Int) else 1
   | some b => if b = 0 then 1 else if b < 0 then (n : Int) + b + 1 else b
 
-/-- index_or_rindex on one element type -/
+/-- index_or_rindex on one element type.
+    REPAIR: the C rejected every boundary beyond the subject length (`boundary > len0`), so a forward search
+    could not start at the empty suffix and index("", "") was 0 although index("abc", "") is 1; repaired to
+    accept the start position len0 + 1 for the forward search (only the empty string can be found there). -/
 def indexCore (rindex : Bool) (s p : List α) (start : Option Int) : Int :=
   let boundary := indexBoundary rindex s.length start
-  if boundary > (s.length : Int) ∨ boundary ≤ 0 then 0
+  if boundary ≤ 0 ∨ boundary > (s.length : Int) + (if rindex then 0 else 1) then 0
   else if rindex then
     match rfind (s.take boundary.toNat) p with
     | some i => (i : Int) + 1
@@ -580,6 +583,17 @@ def fnSubst (E : Env) (limit : Option Nat) (pat : Pat) (a1 : Val) (st : State σ
     let (out, cnt) := substitute rx.c '\\' '&' (r2.toStr E) (a1.toStr E) limit
     (.int cnt, if cnt > 0 then { st with target := .str out } else st)
 
+/-- __substitute with two arguments: the target is the record $0 (`nargs < 3`: s2 = rtx->inrec.line, a character
+    string whatever it was assigned from); on a substitution hawk_rtx_setrec(0, …) stores the new text and splits it
+    again, so NF is the number of fields of the new record (default FS = " ": the blank-mode tokeniser).
+    Returns (count, new $0, new NF). -/
+def fnSubst0 (E : Env) (limit : Option Nat) (pat : Pat) (a1 : Val) (rec0 : List Char) : Val × List Char × Nat :=
+  let rx := pat.regex E
+  let (out, cnt) := substitute rx.c '\\' '&' rec0 (a1.toStr E) limit
+  let new := if cnt > 0 then out else rec0
+  (.int cnt, new, (splitChars E.spaceC ' ' [' '] new).length)
+
+
 /-- SUBSEP (default "\x1c") -/
 def subsep : List Char := [Char.ofNat 0x1c]
 
@@ -617,5 +631,307 @@ def fnMatch (E : Env) (a0 : Val) (pat : Pat) (start : Option Val) (wantArr : Boo
                     (['0'] ++ subsep ++ "length".toList, .int t.2.1)])
       else st.coll
     some (.int t.1, { st with rstart := .int t.1, rlength := .int t.2.1, coll := c })
+
+/-! ## Part 3 — IGNORECASE variants and the str:: functions implemented in lib/mod-str.c itself
+
+    (`str::length/substr/index/rindex/split/splita/sub/gsub/match/tolower/toupper` are the fnc.c functions above;
+    here: trim, ltrim, rtrim, normspace, subchar, tocharcode, fromcharcode, frombcharcode, the is* class tests,
+    tombs, frommbs and the value dispatch of tonum) -/
+
+/-- hawk_find/rfind_xchars_in_xchars with ignorecase != 0: the inner loop compares `lower(*x)` with
+    `lower(*y)`, i.e. it is the same search on the case-folded subject and pattern -/
+def indexCoreIc (fold : α → α) (rindex : Bool) (s p : List α) (start : Option Int) : Int :=
+  indexCore rindex (s.map fold) (p.map fold) start
+
+/-- __DELIM_NOSPACES under IGNORECASE: `c = to_xch_upper(*p)` is compared with `to_xch_upper(*d)` -/
+def tokNoSpacesIc (fold : α → α) (delim : List α) (s : List α) : TokRes (List α) α :=
+  let keep := fun c => !(delim.map fold).contains (fold c)
+  let tk := s.takeWhile keep
+  match s.dropWhile keep with
+  | [] => (tk, none)
+  | _ :: t => (tk, some t)
+
+/-- __DELIM_COMPOSITE under IGNORECASE (the space test is made on the upper-cased character) -/
+def tokCompositeIc (isSp : α → Bool) (fold : α → α) (delim : List α) (s : List α) : TokRes (List α) α :=
+  let p1 := s.dropWhile isSp
+  let keep := fun c => isSp (fold c) || !(delim.map fold).contains (fold c)
+  let tk := trimRight isSp (p1.takeWhile keep)
+  match p1.dropWhile keep with
+  | [] => (tk, none)
+  | _ :: t => (tk, some t)
+
+/-- tokenize_xchars with rtx->gbl.ignorecase set -/
+def tokCharsIc (isSp : α → Bool) (blank : α) (fold : α → α) (delim : List α) (s : List α) : TokRes (List α) α :=
+  match delimMode isSp blank delim with
+  | .empty => tokEmpty s
+  | .spaces => tokSpaces isSp s
+  | .nospaces => tokNoSpacesIc fold delim s
+  | .composite => tokCompositeIc isSp fold delim s
+
+theorem tokNoSpacesIc_dec (fold : α → α) (delim a t b : List α) (h : tokNoSpacesIc fold delim a = (t, some b)) :
+    b.length < a.length := by
+  unfold tokNoSpacesIc at h
+  have hl := length_dropWhile_le (fun c => !(delim.map fold).contains (fold c)) a
+  simp only at h
+  split at h
+  · simp at h
+  · rename_i x r heq
+    simp only [Prod.mk.injEq, Option.some.injEq] at h
+    rw [heq] at hl; rw [← h.2]; simp only [List.length_cons] at hl; omega
+
+theorem tokCompositeIc_dec (isSp : α → Bool) (fold : α → α) (delim a t b : List α)
+    (h : tokCompositeIc isSp fold delim a = (t, some b)) : b.length < a.length := by
+  unfold tokCompositeIc at h
+  have hl := length_dropWhile_le (fun c => isSp (fold c) || !(delim.map fold).contains (fold c)) (a.dropWhile isSp)
+  have hl2 := length_dropWhile_le isSp a
+  simp only at h
+  split at h
+  · simp at h
+  · rename_i x r heq
+    simp only [Prod.mk.injEq, Option.some.injEq] at h
+    rw [heq] at hl; rw [← h.2]; simp only [List.length_cons] at hl; omega
+
+theorem tokCharsIc_dec (isSp : α → Bool) (blank : α) (fold : α → α) (delim a t b : List α)
+    (h : tokCharsIc isSp blank fold delim a = (t, some b)) : b.length < a.length := by
+  unfold tokCharsIc at h
+  split at h
+  · exact tokEmpty_dec a t b h
+  · exact tokSpaces_dec isSp a t b h
+  · exact tokNoSpacesIc_dec fold delim a t b h
+  · exact tokCompositeIc_dec isSp fold delim a t b h
+
+/-- split() with a character separator under IGNORECASE -/
+def splitCharsIc (isSp : α → Bool) (blank : α) (fold : α → α) (delim : List α) (s : List α) : List (List α) :=
+  piecesLoop (tokCharsIc isSp blank fold delim) List.length (tokCharsIc_dec isSp blank fold delim) s 0
+
+/-- fnc_split under IGNORECASE = 1: the regular expressions are the case-insensitive compilations (`E` is then the
+    environment whose `compile` is hawk_rtx_buildrex(.., NULL, &icode)) and the character tokeniser folds case -/
+def splitPiecesIc (E : Env) (a0 : Val) (sep : Sep) : Option (List Val) :=
+  -- the separator: NIL → " "; REX → regex; else its string: 5 chars starting with '?' → field mode,
+  -- longer than 1 → regex, else a character set
+  let sepv : Val := match sep with
+    | .fs => .str [' ']
+    | .rex _ => .nil
+    | .val v => v
+  let fsStr : List Char := match sepv with
+    | .nil => [' ']
+    | v => v.toStr E
+  let rex : Option Regex := match sep with
+    | .rex src => some (E.compile src)
+    | _ => if fsStr.length > 1 then some (E.compile fsStr) else none
+  let isRexLit := match sep with | .rex _ => true | _ => false
+  if !isRexLit ∧ fsStr.length = 5 ∧ fsStr.head? = some '?' then none
+  else if a0.isBytes then
+    let s := a0.toBcs E
+    match rex with
+    | some r => some ((splitRex r.b s).map Val.mbs)
+    | none =>
+      -- `byte_str && switch_fs_to_bchr`: the separator is fetched again as a byte string
+      -- (a NIL separator keeps the literal " ")
+      let fsB : List UInt8 := match sepv with
+        | .nil => [32]
+        | v => v.toBcs E
+      some ((splitCharsIc E.spaceB 32 E.upperB fsB s).map Val.mbs)
+  else
+    let s := a0.toStr E
+    match rex with
+    | some r => some ((splitRex r.c s).map Val.str)
+    | none => some ((splitCharsIc E.spaceC ' ' E.upperC fsStr s).map Val.str)
+
+
+def fnSplitIc (E : Env) (useArray : Bool) (a0 : Val) (sep : Sep) (st : State σ) : Option (Val × State σ) :=
+  match splitPiecesIc E a0 sep with
+  | none => none
+  | some ps =>
+    let items := numberFrom 1 ps
+    let c : Coll := if useArray then .array items else .map (items.map fun (k, v) => (intRepr k, v))
+    some (.int ps.length, { st with coll := c })
+
+/-- index_or_rindex under IGNORECASE = 1 -/
+def fnIndexIc (E : Env) (rindex : Bool) (a0 a1 : Val) (a2 : Option Val) : Option Val :=
+  match optInt a2 with
+  | some start =>
+    if a0.isBytes then some (.int (indexCoreIc E.lowerB rindex (a0.toBcs E) (a1.toBcs E) start))
+    else some (.int (indexCoreIc E.lowerC rindex (a0.toStr E) (a1.toStr E) start))
+  | none => none
+
+/-- hawk_trim_xchars: the span from the first to the last non-space character, cut on the sides the flags
+    name (a string of spaces only becomes empty as soon as one flag is given, which is what dropping
+    leading or trailing spaces yields as well) -/
+def trimChars (isSp : α → Bool) (left right : Bool) (s : List α) : List α :=
+  let s1 := if left then s.dropWhile isSp else s
+  if right then trimRight isSp s1 else s1
+
+/-- the state machine of hawk_compact_xchars: `st` = state 1 (a non-space has been seen), `fbs` =
+    followed_by_space; returns the characters written and the final followed_by_space -/
+def compactAux (isSp : α → Bool) : Bool → Bool → List α → List α × Bool
+  | _, fbs, [] => ([], fbs)
+  | false, fbs, c :: r =>
+    if isSp c then compactAux isSp false fbs r
+    else let (o, f) := compactAux isSp true fbs r; (c :: o, f)
+  | true, fbs, c :: r =>
+    if isSp c then
+      (if fbs then compactAux isSp true true r
+       else let (o, f) := compactAux isSp true true r; (c :: o, f))
+    else let (o, f) := compactAux isSp true false r; (c :: o, f)
+
+/-- hawk_compact_xchars: leading spaces dropped, each inner run of spaces reduced to its first character,
+    `return followed_by_space ? q - str - 1 : q - str` drops the one space kept for a trailing run -/
+def compact (isSp : α → Bool) (s : List α) : List α :=
+  let (o, f) := compactAux isSp false false s
+  if f then o.dropLast else o
+
+/-- the character at 1-based position `pos` (str::subchar, str::tocharcode) -/
+def charAt (s : List α) (pos : Int) : Option α :=
+  let lindex := pos - 1
+  if 0 ≤ lindex ∧ lindex < (s.length : Int) then s[lindex.toNat]? else none
+
+/-- is_class: `if (len0 <= 0) tmp = 0; else` every character must be of the class -/
+def isClass (p : α → Bool) (s : List α) : Bool := !s.isEmpty && s.all p
+
+/-- trim / ltrim / rtrim -/
+def fnTrim (E : Env) (left right : Bool) (a0 : Val) : Val :=
+  if a0.isBytes then .mbs (trimChars E.spaceB left right (a0.toBcs E))
+  else .str (trimChars E.spaceC left right (a0.toStr E))
+
+/-- fnc_normspace -/
+def fnNormspace (E : Env) (a0 : Val) : Val :=
+  if a0.isBytes then .mbs (compact E.spaceB (a0.toBcs E))
+  else .str (compact E.spaceC (a0.toStr E))
+
+/-- fnc_trim with its optional flag argument: `if (iv & TRIM_FLAG_PAC_SPACES) return fnc_normspace(...)` -/
+def fnTrimFlags (E : Env) (a0 : Val) (flags : Option Val) : Option Val :=
+  match optInt flags with
+  | none => none
+  | some none => some (fnTrim E true true a0)
+  | some (some iv) => if iv % 2 = 1 then some (fnNormspace E a0) else some (fnTrim E true true a0)
+
+/-- fnc_subchar: the character (byte character for byte values) at the position, nil outside the value -/
+def fnSubchar (E : Env) (a0 a1 : Val) : Option Val :=
+  match a1.toInt with
+  | none => none
+  | some pos =>
+    if a0.isBytes then
+      some (match charAt (a0.toBcs E) pos with | some b => .bchr b | none => .nil)
+    else
+      some (match charAt (a0.toStr E) pos with | some c => .chr c | none => .nil)
+
+/-- fnc_tocharcode: the code of the character at the position (default 1); no return value (nil) outside -/
+def fnTocharcode (E : Env) (a0 : Val) (a1 : Option Val) : Option Val :=
+  match optInt a1 with
+  | none => none
+  | some posArg =>
+    let pos := posArg.getD 1
+    if a0.isBytes then
+      some (match charAt (a0.toBcs E) pos with | some b => .int b.toNat | none => .nil)
+    else
+      some (match charAt (a0.toStr E) pos with | some c => .int c.toNat | none => .nil)
+
+/-- a code that a 16-bit hawk_ooch_t holds as a character of its own (no surrogates; the cast of anything
+    else truncates and is not modelled) -/
+def validCharCode (i : Int) : Bool := (0 ≤ i ∧ i < 0xD800) ∨ (0xE000 ≤ i ∧ i < 0x10000)
+
+def allInts : List Val → Option (List Int)
+  | [] => some []
+  | v :: r => match v.toInt, allInts r with
+    | some i, some l => some (i :: l)
+    | _, _ => none
+
+/-- fnc_fromcharcode: one code gives a character, any other number of codes a string -/
+def fnFromcharcode (codes : List Val) : Option Val :=
+  match allInts codes with
+  | none => none
+  | some l =>
+    if l.all validCharCode then
+      (match l with
+       | [c] => some (.chr (Char.ofNat c.toNat))
+       | l => some (.str (l.map fun c => Char.ofNat c.toNat)))
+    else none
+
+/-- fnc_frombcharcode: one code gives a byte character, any other number of codes a byte string.
+    REPAIR: the one-code case called hawk_rtx_makecharval (a CHARACTER value) although the function
+    "creates a byte-character from a single character code"; repaired to hawk_rtx_makebchrval. -/
+def fnFrombcharcode (codes : List Val) : Option Val :=
+  match allInts codes with
+  | none => none
+  | some l =>
+    if l.all (fun i => 0 ≤ i ∧ i < 256) then
+      (match l with
+       | [c] => some (.bchr (UInt8.ofNat c.toNat))
+       | l => some (.mbs (l.map fun c => UInt8.ofNat c.toNat)))
+    else none
+
+/-- is_class with the class given as its two predicates (characters, bytes) -/
+def fnIsClass (E : Env) (pc : Char → Bool) (pb : UInt8 → Bool) (a0 : Val) : Val :=
+  if a0.isBytes then .int (if isClass pb (a0.toBcs E) then 1 else 0)
+  else .int (if isClass pc (a0.toStr E) then 1 else 0)
+
+/-- the optional encoding-name argument of tombs/frommbs -/
+inductive EncArg where
+  | absent      -- the runtime's cmgr
+  | utf8        -- a name that resolves to the same cmgr
+  | unknown     -- a name hawk_get_cmgr_by_name does not know (or the empty name): zero-length result
+deriving DecidableEq
+
+/-- fnc_tombs -/
+def fnTombs (E : Env) (a0 : Val) (enc : EncArg) : Val :=
+  if enc = .unknown then .mbs []
+  else match a0 with
+    | .bchr b => .mbs [b]
+    | .mbs b => .mbs b
+    | v => .mbs (v.toBcs E)
+
+/-- fnc_frommbs -/
+def fnFrommbs (E : Env) (a0 : Val) (enc : EncArg) : Val :=
+  if enc = .unknown then .str []
+  else match a0 with
+    | .str s => .str s
+    | v => .str (v.toStr E)
+
+/-- value of a digit character in bases up to 16 -/
+def digitVal (c : Nat) : Option Nat :=
+  if 48 ≤ c ∧ c ≤ 57 then some (c - 48)
+  else if 97 ≤ c ∧ c ≤ 102 then some (c - 87)
+  else if 65 ≤ c ∧ c ≤ 70 then some (c - 55)
+  else none
+
+def digitsVal (base : Nat) : Nat → List Nat → Option Nat
+  | acc, [] => some acc
+  | acc, c :: r => match digitVal c with
+    | some d => if d < base then digitsVal base (acc * base + d) r else none
+    | none => none
+
+/-- the part of hawk_xchars_to_num this property relies on: an optional sign and a non-empty run of digits
+    all valid in the base, without a radix prefix (base 0 = automatic: decimal, and a leading 0 would select
+    another radix, so it is excluded); everything else is the business of the number parser (property C11)
+    and reported as not modelled -/
+def simpleNum (base : Nat) (s : List Nat) : Option Int :=
+  let (neg, ds) := match s with
+    | 45 :: r => (true, r)
+    | 43 :: r => (false, r)
+    | r => (false, r)
+  if ds.isEmpty then none
+  else if base = 0 ∧ ds.head? = some 48 ∧ ds.length > 1 then none
+  else if base ≠ 0 ∧ base ≠ 2 ∧ base ≠ 8 ∧ base ≠ 10 ∧ base ≠ 16 then none
+  else match digitsVal (if base = 0 then 10 else base) 0 ds with
+    | some n => some (if neg then -(n : Int) else (n : Int))
+    | none => none
+
+/-- fnc_tonum: a number is returned as it is (the base is then ignored), nil is 0, a string / byte string /
+    character / byte character is parsed in the given base (absent = automatic) -/
+def fnTonum (E : Env) (a0 : Val) (base : Option Val) : Option Val :=
+  match a0 with
+  | .nil => some (.int 0)
+  | .int i => some (.int i)
+  | .flt m e => some (.flt m e)
+  | v =>
+    match optInt base with
+    | none => none
+    | some b =>
+      let bv := (b.getD 0)
+      if bv < 0 then none
+      else
+        let txt : List Nat := if v.isBytes then (v.toBcs E).map UInt8.toNat else (v.toStr E).map Char.toNat
+        (simpleNum bv.toNat txt).map Val.int
 
 end Hawk.StrFn
